@@ -208,6 +208,8 @@ def run(rep):
     rep.floor("R-C05-rebase", 4)
     rep.floor("R-C05-preroll", 14)
     rep.clause("R-C05-shift / -rebase / -preroll", "the history buffer the window is cut from holds the last frames of the stream at the offsets the position assumes (shared with C05)")
+    import shares
+    shares.step(rep, ("FastFixedIn", "FastFixedOut"), "the evaluation instants are 1/ratio apart")
     rep.floor("R-C08-poly", 1 + 20 + 8)
     rep.floor("R-C08-window", 10)
     rep.floor("R-C08-siblings", 5)
